@@ -652,6 +652,46 @@ theorem decode_layout (p : EncParam) (lf payload : Bytes) (cap : Nat) (hlf : lf.
   · simp only [toParam, hdecl, layout_length _ _ hlf]; omega
   · simp only [toParam, hdecl, htot, layout_length _ _ hlf]; omega
 
+/-- Encode does not look at the protocol id, Decode does: a laid-out frame whose protocol id is not in the
+    allow-list is refused with the protocol error, after both Next calls (14 + declared bytes consumed) -/
+theorem decode_layout_unsupported (p : EncParam) (lf payload : Bytes) (cap : Nat) (hlf : lf.length = 4)
+    (hd : (fp p).Dom) (hsup : p.proto ∉ Frame.supported) (hs : infoSize (fp p) ≤ 65536)
+    (hcap : (layout lf (fp p) ++ payload).length ≤ cap) :
+    decodeBytes (layout lf (fp p) ++ payload) cap = (.err .protocol, (layout lf (fp p)).length) := by
+  obtain ⟨d4, d6, d8, d12, d14⟩ := frame_drops lf (be16 0x1000) (be16 (fp p).flags)
+    (be32 (Frame.seqBits (fp p).seq)) (be16 (infoSize (fp p) / 4))
+    (Frame.info (fp p) ++ (List.replicate (padLen (Frame.info (fp p)).length) 0 ++ payload))
+    hlf (by simp) (by simp) (by simp) (by simp)
+  simp only [← layout_struct] at d4 d6 d8 d12 d14
+  have hS4 := infoSize_mod4 (fp p)
+  have hI2 : 2 ≤ (Frame.info (fp p)).length := by rw [info_struct]; simp
+  have hSdef : infoSize (fp p) = (Frame.info (fp p)).length + padLen (Frame.info (fp p)).length := rfl
+  have hdecl : Frame.declared (layout lf (fp p) ++ payload) = infoSize (fp p) := by
+    unfold Frame.declared Frame.sizeField; rw [d12, rd16_be16 _ (by omega) _]; omega
+  have hlen : (layout lf (fp p) ++ payload).length = 14 + infoSize (fp p) + payload.length := by
+    rw [layout_struct]; simp [hlf]; omega
+  have hmagic : rd16 ((layout lf (fp p) ++ payload).drop 4) = 0x1000 := by
+    rw [d4]; exact rd16_be16 _ (by omega) _
+  have hproto : rd8 ((layout lf (fp p) ++ payload).drop 14) = p.proto := by
+    rw [d14, info_struct]
+    simp only [List.cons_append, rd8, List.headD_cons, fp, UInt8.toNat_ofNat']
+    have := hd.proto; simp only [fp] at this; omega
+  rw [decodeBytes_eq_cur _ _ hcap, decodeCur_chain]
+  have c1 : ¬ (layout lf (fp p) ++ payload).length < 14 := by omega
+  have c2 : ¬ (Frame.declared (layout lf (fp p) ++ payload) > 65536 ∨
+      Frame.declared (layout lf (fp p) ++ payload) < 2) := by omega
+  have c3 : ¬ (layout lf (fp p) ++ payload).length - 14 < Frame.declared (layout lf (fp p) ++ payload) := by omega
+  simp only [c1, hmagic, ne_eq, not_true_eq_false, c2, c3, if_false]
+  have hl : (((layout lf (fp p) ++ payload).drop 14).take (Frame.declared (layout lf (fp p) ++ payload))).length
+      = Frame.declared (layout lf (fp p) ++ payload) := by
+    simp only [List.length_take, List.length_drop]; omega
+  rw [decodeInfo_eq _ _ hl (by simp only; omega) (by simp only; omega)]
+  have e1 : rd8 (((layout lf (fp p) ++ payload).drop 14).take (Frame.declared (layout lf (fp p) ++ payload)))
+      = p.proto := by rw [rd8_take _ _ (by omega)]; exact hproto
+  have hns : ¬ (Frame.supported.contains p.proto = true) := by simpa using hsup
+  rw [e1, hdecl, layout_length _ _ hlf]
+  simp [hsup]
+
 /-- the caller's PutUint32(totalLenField, total) after Encode: the frame becomes the layout with that
     length field -/
 theorem setTotalLen_layout (p : EncParam) (w : W) (L : List Bytes) (total : Nat) (hd : (fp p).Dom)
